@@ -248,7 +248,8 @@ class Program:
                         if fn.attr in by_name and fn.attr not in pure_now:
                             return True
                         if fn.attr not in by_name and fn.attr not in ("items", "keys", "values", "get", "format", "join", "split", "strip",
-                                                                       "startswith", "endswith", "index", "count", "copy", "lower", "upper"):
+                                                                       "startswith", "endswith", "index", "count", "copy", "lower", "upper",
+                                                                       "mean", "percentile", "sqrt", "log", "power", "sum", "array", "floor", "ceil", "isclose"):
                             return True
                     elif isinstance(fn, ast.Name):
                         if fn.id in by_name:
